@@ -241,22 +241,47 @@ Definition checked_getter_rejects_statement : Prop :=
     bad_for g req (alookup p m) = true ->
     exists e, dispatch uri m = Err e.
 
-(** Every required parameter of every /api/loc/* case is checked, with one
+(** Every required parameter of every /api/loc/* case is checked, without
     exception (by reflection over the regenerated table). *)
 Definition required_are_checked_statement : Prop :=
   forall uri gs g p chk,
-    In (uri, gs) loc_entries -> In (g, p, true, chk) gs ->
-    chk = true \/ (uri = "/api/loc/util/js" /\ p = "code").
+    In (uri, gs) loc_entries -> In (g, p, true, chk) gs -> chk = true.
+
+(** So is the optional "id" of facts/add, rules/add and facts/replace: an id
+    that is not a string is an error, not a generated id. *)
+Definition optional_ids_are_checked_statement : Prop :=
+  forall uri gs g req chk,
+    In (uri, gs) loc_entries -> In (g, "id", req, chk) gs -> chk = true.
 
 (** Hence: for every /api/loc/* entry of the dispatch table and every
-    required parameter (but "code" of /api/loc/util/js), a request in which it
-    is missing or ill-typed is answered with an error. *)
+    required parameter, a request in which it is missing or ill-typed is
+    answered with an error. *)
 Definition missing_or_illtyped_is_error_statement : Prop :=
   forall uri gs g p chk m,
     In (uri, gs) loc_entries -> In (g, p, true, chk) gs ->
-    ~ (uri = "/api/loc/util/js" /\ p = "code") ->
     bad_for g true (alookup p m) = true ->
     exists e, dispatch uri m = Err e.
+
+(** The composite operations (take = search-and-remove; replace = take, then
+    add) run their inner requests on the same parameter map and return their
+    errors: whatever the search rejects, take and replace reject; whatever
+    the add rejects, replace rejects - BEFORE anything is taken (no plan at
+    all, not a take followed by an error). *)
+Definition inner_getters (uri : string) : list getter_spec :=
+  match alookup uri svc_loc_getters with Some gs => gs | None => [] end.
+Definition composite_reports_inner_errors_statement : Prop :=
+  forall g p req m,
+    bad_for g req (alookup p m) = true ->
+    (In (g, p, req, true) (inner_getters "/api/loc/facts/search") ->
+       (exists e, dispatch "/api/loc/facts/take" m = Err e) /\
+       (exists e, dispatch "/api/loc/facts/replace" m = Err e)) /\
+    (In (g, p, req, true) (inner_getters "/api/loc/facts/add") ->
+       exists e, dispatch "/api/loc/facts/replace" m = Err e).
+
+(** replace never takes and then fails to start the add: its plan is the
+    take followed by the add, or nothing. *)
+Definition replace_add_not_rejected_statement : Prop :=
+  forall m p e, dispatch "/api/loc/facts/replace" m <> Ok (PSeq p (PErr e)).
 
 (** At the HTTP level: if the decoded request lacks (or ill-types) such a
     parameter, ServeHTTP answers 400 before any System call. *)
@@ -264,7 +289,6 @@ Definition missing_or_illtyped_is_400_statement : Prop :=
   forall rq uri m gs g p chk,
     decode svc_parameter_types rq = Ok (uri, m) ->
     In (uri, gs) loc_entries -> In (g, p, true, chk) gs ->
-    ~ (uri = "/api/loc/util/js" /\ p = "code") ->
     bad_for g true (alookup p m) = true ->
     exists e, serve svc_parameter_types rq = Err e.
 
@@ -332,22 +356,24 @@ Definition rq_D61 : request :=
 Definition empty_typed_param_is_400_statement : Prop :=
   in_D61 rq_D61 = true /\ serve svc_parameter_types rq_D61 = Err "unknown syntax".
 
-(** D62: the composite operations throw the results of their inner requests
-    away: take without a pattern does nothing and reports success; replace
-    without a fact removes what matches and reports success. *)
-Definition composite_swallows_errors_counterexample_statement : Prop :=
-  dispatch "/api/loc/facts/take" [("location", JStr "here")] = Ok PNone /\
-  dispatch "/api/loc/facts/replace" [("location", JStr "here"); ("pattern", JObj [("a", JStr "?x")])] =
-    Ok (PSeq (PIgnore (PCall "SearchFacts" [JStr "here"; JObj [("a", JStr "?x")]; JBool false] true)) PNone).
+(** D62 (repaired): take without a pattern, replace without a fact (nothing
+    is taken), replace without a pattern: errors. *)
+Definition composite_errors_are_reported_statement : Prop :=
+  dispatch "/api/loc/facts/take" [("location", JStr "here")] = Err "missing" /\
+  dispatch "/api/loc/facts/replace" [("location", JStr "here"); ("pattern", JObj [("a", JStr "?x")])] = Err "missing" /\
+  dispatch "/api/loc/facts/replace" [("fact", JObj []); ("location", JStr "here")] = Err "missing" /\
+  dispatch "/api/loc/facts/replace" [("fact", JObj []); ("id", JNum 5); ("location", JStr "here"); ("pattern", JObj [])] = Err "wrongtype" /\
+  dispatch "/api/loc/facts/replace" [("fact", JObj []); ("location", JStr "here"); ("pattern", JObj [])] =
+    Ok (PSeq (PCall "SearchFacts" [JStr "here"; JObj []; JBool false] true)
+             (PCall "AddFact" [JStr "here"; JStr ""; JObj []] false)).
 
-(** D63: getter errors that are not looked at: a missing "code" runs the
-    empty script; an ill-typed optional "id" is replaced by a generated one. *)
-Definition unchecked_getter_counterexample_statement : Prop :=
-  bad_for "GetStringParam" true (alookup "code" [("location", JStr "here")]) = true /\
-  dispatch "/api/loc/util/js" [("location", JStr "here")] =
-    Ok (PCall "RunJavascript" [JStr "here"; JStr ""; JArr []] false) /\
-  bad_for "GetStringParam" false (alookup "id" [("fact", JObj []); ("id", JNum 5); ("location", JStr "here")]) = true /\
-  dispatch "/api/loc/facts/add" [("fact", JObj []); ("id", JNum 5); ("location", JStr "here")] =
+(** D63 (repaired): a missing "code" and an ill-typed optional "id" are
+    errors; an absent id is still fine. *)
+Definition getter_errors_are_reported_statement : Prop :=
+  dispatch "/api/loc/util/js" [("location", JStr "here")] = Err "missing" /\
+  dispatch "/api/loc/facts/add" [("fact", JObj []); ("id", JNum 5); ("location", JStr "here")] = Err "wrongtype" /\
+  dispatch "/api/loc/rules/add" [("id", JBool true); ("location", JStr "here"); ("rule", JObj [])] = Err "wrongtype" /\
+  dispatch "/api/loc/facts/add" [("fact", JObj []); ("location", JStr "here")] =
     Ok (PCall "AddFact" [JStr "here"; JStr ""; JObj []] false).
 
 (** The hypotheses of decode_render are needed.
